@@ -54,6 +54,11 @@ def gen_cases(tier):
             for rel in cs.RELS:
                 for lt in (True, False):
                     yield {"part": "inner", "spin": spin, "rel": rel, "log_trick": lt}
+        # the weight applied through arithmetic: weight * (model that already carries constraints), in every operator form
+        for spin in (False, True):
+            for rel in cs.RELS:
+                for form in ("mul", "rmul", "mul-add", "imul", "add-mul"):
+                    yield {"part": "scaled", "spin": spin, "rel": rel, "form": form}
         for D in gen.polys(4, 1 if quick else 2, (-3, 1, 2), minterms=1, need_deg=3):
             for typ in ("PUBO", "PUSO", "PCBO", "PCSO"):
                 yield {"part": "red", "type": typ, "poly": rp.jdict(D)}
@@ -206,6 +211,27 @@ def check(case, st):
             return H
         compare(st, case, "%s with the symbol as coefficient of the objective and of the %s-constraint polynomial (bounds given)" % (Model.__name__, rel),
                 build, "%s.%s|symbol-in-polynomial|log_trick=%s" % (Model.__name__, rel, lt))
+    elif part == "scaled":
+        spin, rel, form = case["spin"], case["rel"], case["form"]
+        Model = qv.PCSO if spin else qv.PCBO
+        st.nontrivial += 1
+
+        def build(w):
+            C = Model({("a", "b"): 1, ("c",): -1})
+            getattr(C, "add_constraint_%s_zero" % rel)({("a",): 1, ("b",): -2, ("c",): 1, (): -1}, lam=1)
+            O = Model({("a",): 2, ("b", "c"): -1, (): 0.5})
+            if form == "mul":
+                return C * w
+            if form == "rmul":
+                return w * C
+            if form == "mul-add":
+                return w * C + O
+            if form == "imul":
+                C *= w
+                return C
+            return (C + O) * w
+        compare(st, case, "%s: weight applied by arithmetic (%s) to a model carrying a %s-constraint" % (Model.__name__, form, rel),
+                build, "%s.%s|scaled-%s" % (Model.__name__, rel, form))
     elif part == "log":
         labels = gen.labels_for("str", 4)
         meth = "add_constraint_%s%s" % ("eq_" if case["eq"] else "", case["gate"])
